@@ -67,7 +67,7 @@ static void tv(const char *rule, const char *what, const char *fmt, ...)
     pthread_mutex_unlock(&mu);
 }
 
-struct tstat { long conns, msgs, attrs, bursts, handed, received_hand, tls_shared, tls_private, names, ctl_sessions; };
+struct tstat { long conns, msgs, attrs, bursts, handed, received_hand, tls_shared, tls_private, names, ctl_sessions, tls_failures; };
 
 static bool make_pair(enum vtp tp, int tid, int n, struct xcm_attr_map *extra, struct handoff *h)
 {
@@ -181,6 +181,33 @@ static void *worker(void *arg)
             struct ctlq cq = { 0 }; xcmc_list(list_cb, &cq);
             for (int i = 0; i < cq.n && i < 2; i++) { struct xcmc_session *ss = xcmc_open(cq.pid[i], cq.ref[i]); if (ss) { long na = 0; xcmc_attr_get_all(ss, ctl_attr_cb, &na); xcmc_close(ss); t->st.ctl_sessions++; } }
         } else if (a < 97 && t->tid == 0) { log_console_conf(vrnd_p(&r, 50)); }
+        else if (a < 99) {
+            /* a TLS handshake that fails on this thread (the client trusts nobody who signed the server's certificate): what the thread does
+             * afterwards - its own connections, connections handed over to it - must be unaffected */
+            struct xcm_attr_map *m = xcm_attr_map_create(); xcm_attr_map_add_bool(m, "xcm.blocking", false);
+            struct xcm_socket *sv = xcm_server_a("tls:127.0.0.1:0", m), *cl = NULL, *ac = NULL;
+            if (sv) { xcm_attr_map_add_bin(m, "tls.tc", t->own->cert_pem, strlen(t->own->cert_pem)); cl = xcm_connect_a(xcm_local_addr(sv), m); }
+            xcm_attr_map_destroy(m);
+            bool failed = false;
+            for (int i = 0; cl && i < 3000 && !failed; i++) {
+                if (!ac) ac = xcm_accept(sv);
+                if (xcm_finish(cl) < 0 && errno != EAGAIN) failed = true;
+                if (ac && xcm_finish(ac) < 0 && errno != EAGAIN) failed = true;
+                if (i > 30) { struct pollfd none; poll(&none, 0, 1); }
+            }
+            if (failed) t->st.tls_failures++;
+            if (cl) xcm_close(cl); if (ac) xcm_close(ac); if (sv) xcm_close(sv);
+            /* straight afterwards the thread takes over a connection somebody else made */
+            struct handoff h; bool have = false;
+            pthread_mutex_lock(&qmu); if (qn > 0) { h = q[--qn]; have = true; } pthread_mutex_unlock(&qmu);
+            if (have) {
+                unsigned char probe[32]; int pr = xcm_receive(h.cl, probe, sizeof probe);         /* nothing has been sent: EAGAIN is the only right answer */
+                if (!(pr < 0 && errno == EAGAIN)) tv("idle-receive-after-handoff", "queue", "thread %d, after a failed TLS handshake of its own: xcm_receive on an idle connection handed over by another thread returned %d errno %d", t->tid, pr, errno);
+                else if (!traffic(&h, (unsigned)(t->tid * 100 + it + 70), 2)) tv("delivery-after-handoff", "queue", "thread %d (after a failed TLS handshake of its own): a connection created by another thread did not deliver intact", t->tid);
+                else { t->st.msgs += 2; t->st.received_hand++; }
+                close_pair(&h);
+            }
+        }
         else { struct xcm_socket *x = xcm_connect("tcp:127.0.0.1:1", XCM_NONBLOCK); if (x) xcm_close(x); }
     }
     xcm_attr_map_destroy(own);
@@ -208,6 +235,7 @@ static void one_case(long idx)
     for (int i = 0; i < nthreads; i++) { s.conns += ta[i].st.conns; s.msgs += ta[i].st.msgs; s.attrs += ta[i].st.attrs; s.bursts += ta[i].st.bursts; s.handed += ta[i].st.handed; s.received_hand += ta[i].st.received_hand; s.tls_shared += ta[i].st.tls_shared; s.tls_private += ta[i].st.tls_private; vpki_free(ta[i].own); }
     vobs("threads_run", nthreads); vobs("connections", s.conns); vobs("messages_verified", s.msgs); vobs("attribute_reads", s.attrs); vobs("socket_bursts", s.bursts);
     long names = 0, ctls = 0; for (int i = 0; i < nthreads; i++) { names += ta[i].st.names; ctls += ta[i].st.ctl_sessions; }
+    { long tf = 0; for (int i = 0; i < nthreads; i++) tf += ta[i].st.tls_failures; vobs("failed_tls_handshakes_on_worker_threads", tf); }
     vobs("host_name_connects", names); vobs("in_process_control_sessions", ctls); if (ctl_on) vobs("cases_with_control_interface", 1);
     vobs("sockets_handed_over", s.received_hand); vobs("tls_pairs_shared_credentials", s.tls_shared); vobs("tls_pairs_private_credentials", s.tls_private);
     long oc = __atomic_load_n(&overlap_create, __ATOMIC_RELAXED), ot = __atomic_load_n(&overlap_tls, __ATOMIC_RELAXED);
